@@ -100,7 +100,7 @@ def step (cs : CaseSt) (op obs : String) : CaseSt × R :=
   if crashed then
     if cs.feats.contains "crashed" then (cs, { branch := "after-crash" })
     else ({ cs with dead := true, feats := "crashed" :: cs.feats },
-          { diffs := if cs.dead then [] else ["alive"], mon := ["C10.no_panic_no_deadlock"], branch := "crash", model := "alive" })
+          { diffs := if cs.dead then [] else ["alive"], mon := ["C10.no_panic_no_deadlock", "C06.no_crash_no_hang", "C15.no_crash_no_hang"], branch := "crash", model := "alive" })
   else if cs.unstable then (cs, { branch := "timing-unstable-skipped" })
   else if getF ofs "unstable" == some "1" then ({ cs with unstable := true }, { branch := "timing-unstable-skipped" })
   else match parseObs ofs with
@@ -130,7 +130,7 @@ def step (cs : CaseSt) (op obs : String) : CaseSt × R :=
           (if si.sawClosed && got != some "closed" then ["C10.nothing_after_close"] else [])
         | none => []
       else []
-    let mon := monAll m' o ++ closeClauses
+    let mon := monAll m' o ++ closeClauses ++ (if kind == "sleep" then timeoutsFire m' o else [])
     let feats := (if o.pend > 0 then ["pending"] else []) ++ (if kind == "closesub" || kind == "closepub" then ["close"] else []) ++
                  (if kind == "sleep" then ["sleep"] else []) ++ cs.feats
     if cs.dead then ({ cs with m := m', feats := feats }, { mon := mon, branch := "after-divergence" }) else
@@ -217,12 +217,13 @@ partial def stressLoop (h : IO.FS.Stream) (st : Stats) (caseNo : String) (lineNo
     st := st.bump "stress"
     let crashed := obs.startsWith "crash:" || obs.startsWith "hang:"
     let clauses : List String :=
-      if crashed then ["C10.no_panic_no_deadlock"] else
+      if crashed then ["C10.no_panic_no_deadlock", "C06.no_crash_no_hang", "C15.no_crash_no_hang"] else
       (if getNat ofs "dup" == some 0 then [] else ["C06.at_most_once"]) ++
       (if getNat ofs "foreign" == some 0 then [] else ["C06.only_published_and_accepted"]) ++
       (if getNat ofs "rejected" == some 0 then [] else ["C06.only_published_and_accepted"]) ++
       (if getNat ofs "missing" == some 0 then [] else ["C06.exactly_once_if_receiving"]) ++
       (if getNat ofs "left" == some 0 then [] else ["C15.no_goroutine_left"]) ++
+      (if (getNat ofs "unclosed").getD 0 == 0 then [] else ["C10.close_from_callback_completes"]) ++
       (if getNat ofs "races" == some 0 then [] else ["C10.no_data_race"])
     unless clauses.isEmpty do
       IO.println s!"DIFF case={caseNo} line={lineNo} fields=stress model=[dup=0 foreign=0 rejected=0 missing=0 left=0 races=0] impl=[{obs}] op=[{op}]"
